@@ -60,6 +60,10 @@ def run(ck):
 
     # ---------------- R2 ----------------
     rpairs = [p_ for g in [pr] + prog.lambdas_in(pr) for p_ in tables.chain_pairs(g)]
+    # (or the reader walks namespace-scope tables of {"literal", length, Enum} rows, first match wins: the rows, in their order)
+    tpairs = list(tables.referenced_tables(prog, pr, prog.lambdas_in(pr), as_pairs=True))
+    tpairs = [(lit, en if en.startswith("Pistache") else M + en.split("Mime::")[-1]) for lit, en in tpairs]
+    rpairs += [p_ for p_ in tpairs if p_ not in rpairs]
     rmap = dict(rpairs)
     ts = lib.single(prog, M + "MediaType::toString")
     wmap = {}
@@ -91,7 +95,10 @@ def run(ck):
                 for b_, bb in seq:
                     if bb != ba and bb in later and ba not in cfg.reachable_blocks(g, bb) and a_ and b_.lower() != a_.lower() and b_.lower().startswith(a_.lower()):
                         shadow.append((a_, b_))
-        seq = [None] * nseq
+        # a table walked front to back: the rows' order is the matching order
+        tseq = [lit for lit, en in tpairs if ("::" + kind + "::") in en]
+        shadow += [(a_, b_) for i_, a_ in enumerate(tseq) for b_ in tseq[i_ + 1:] if a_ and b_.lower() != a_.lower() and b_.lower().startswith(a_.lower())]
+        seq = [None] * (nseq + len(tseq))
         ck.ob("C18-R2", "table:%s/no-literal-shadows-a-later-one" % kind, not shadow, pr.loc, pr,
               "the %d literals are tried in an order in which none is a prefix of a later one" % len(seq) if not shadow else
               "%r is tried before %r and matches its beginning: a media type written with %r is read back as %r followed by rubbish"
@@ -103,7 +110,7 @@ def run(ck):
     lits_all = {v for v in wmap.values() if isinstance(v, str) and v}
     cmps = [(e, a_["const"][2:]) for e in pr.events("call") for a_ in e.get("args", [])
             if isinstance(a_.get("const"), str) and a_["const"].startswith("s:") and a_["const"][2:] in lits_all | {x.lstrip("+") for x in lits_all}]
-    ck.require(len(cmps) >= 15, "table comparisons found in MediaType::parseRaw: %d" % len(cmps))
+    ck.require(len(cmps) + len(tpairs) >= 15, "table comparisons found in MediaType::parseRaw: %d" % (len(cmps) + len(tpairs)))
     dpr = cfg.dominators(pr)
     cut = [(sc, lit, ce) for sc, dl in scans if dl for ce, lit in cmps if (set(lit) & dl) and cfg.ev_dominates(dpr, sc, ce)]
     ck.ob("C18-R2", "table-literals-vs-scan-delimiters", not cut, cut[0][0].loc if cut else pr.loc, pr,
